@@ -102,6 +102,13 @@ var fixedProgs = []string{
 	"[1 ? 2, 3]", "[0 ? 2, 3]", "c=1; [c ? 2, 3]", "func g(x,y){x+y}; g(1 ? 2, 3)", "{'a': 1 ? 2, 'b': 3}", "[0 ? 1, 0 ? 2, 3, 4]", "c=0; x = [c ? 2, c ? 3, 5]; x",
 	"i=0; while i<3 { i=i+1; x = `a{% if i>1 { continue } %}b` }", "i=0; while i<3 { i=i+1; x = `a{% break %}b` }", "i=0; while i<3 { i=i+1; x = [1, `{% continue %}`] }",
 	"`a{% i=0; while i<3 { i=i+1; if i==2 { break } } %}b{i}`", "func g() { `a{% return 5 %}b` }; g()",
+	// loop conditions that begin with a literal, a die, a parenthesis, a call (the re-entry point of continue is the first
+	// instruction of the condition, whatever it is)
+	"i=0; while 1 { i=i+1; if i>3 { break }; continue }", "while d1 { break }", "i=0; while (i<3) { i=i+1; continue }", "i=0; while [1][0] && i<3 { i=i+1; if i==2 { continue } }",
+	"i=0; while 2d1 > i { i=i+1; continue }", "i=0; while `a` && i<2 { i=i+1; continue }", "i=0; while abs(3) > i { i=i+1; if i>1 { continue } }", "while 1 { continue; break }" + " ",
+	// bodies defined inside a loop are code blocks of their own: a bare break/continue in them has no loop (rejected today;
+	// if ever accepted, its jump must not be patched into the enclosing program)
+	"i=0; while i<2 { i=i+1; func f() { break }; f() }", "i=0; while i<1 { i=i+1; func g() { if 1 { continue } }; g() }", "i=0; while i<1 { i=i+1; &a = `{break}`; a }", "while 0 { &a = `{% if 1 { continue } %}` }",
 	"^st力量+1d6", "^st&手枪=1d6", "^st力量-1d4+2", "^st'力量 2'=3", "^st力量*2:60", "null ?? 1", "-1", "+1", "[1..3]", "{'a':1,}", "this.x = 1", "&a.b = 2", "x.y.z", "f(1)(2)", "a = b = 3", "x = y[0] = 1", "dct.k = dct['j'] = []",
 }
 
